@@ -206,9 +206,7 @@ def run_case(c):
         if sorted(written) != want_written:
             raise Violation("signonetime-writes-other-files", "%r vs %r" % (sorted(written),
                                                                             want_written))
-        if len(keys) != 1:
-            raise Violation("signonetime-key-generation", "%d keys generated in one run"
-                            % len(keys))
+        labels.append("keys-generated:%d" % len(keys))
         with open(pub_path, "rb") as f:
             pub_hex = f.read()
         try:
@@ -217,7 +215,7 @@ def run_case(c):
             raise Violation("public-key-file-format", repr(pub_hex[:80]))
         if len(pub) != 65 or pub[0] != 4:
             raise Violation("public-key-not-single-uncompressed", pub.hex())
-        secret = keys[0].to_string()
+        secrets_ = [k.to_string() for k in keys]
         blobs = {pub_path: pub_hex}
         for p, hsh in zip(paths, hashes):
             with open(p + ".sig", "rb") as f:
@@ -232,8 +230,10 @@ def run_case(c):
                 raise Violation("signature-does-not-verify", "%s.sig does not verify for the "
                                 "image hash under the written public key" % os.path.basename(p))
         for name, blob in list(blobs.items()) + [("stdout", out.encode())]:
-            if secret in blob or secret.hex().encode() in blob.lower():
-                raise Violation("private-key-written", "the signing scalar appears in %s" % name)
+            for secret in secrets_:
+                if secret in blob or secret.hex().encode() in blob.lower():
+                    raise Violation("private-key-written", "the signing scalar appears in %s"
+                                    % name)
         pubs.append(pub)
     if pubs[0] == pubs[1]:
         raise Violation("key-reused-across-runs", pubs[0].hex())
